@@ -471,6 +471,93 @@ def replay(schedule, scratch):
     return {'violations': res['violations'], 'digest': res['digest']}
 
 
+# ----------------------------------------------------------------------------- shrinking
+
+def _world_key(world, rel):
+    """The key of the world entry that holds the bytes a program reads at `rel` (symbolic links followed)."""
+    if rel in world:
+        return rel
+    links = {}
+    for k, v in world.items():
+        if k.endswith('@') and v is not None:
+            t = v.get('t') if 't' in v else v.get('b')
+            links[k[:-1]] = os.path.normpath(os.path.join(os.path.dirname(k[:-1]), t))
+    r2 = util.resolve_path(links, rel)
+    return r2 if r2 in world else None
+
+
+def shrink_candidates(schedule):
+    """Smaller budgets: fewer rows per source, fewer sources, no views, fewer rules, no decoy environment.  Every candidate
+    re-renders what it touches from the model, so the model and the files stay in step."""
+    import copy
+    import random
+    from ..models import statement as st
+    from ..models import rulesfile as rf
+    case = schedule['case']
+    b = case['budget']
+    base = b['base']
+    faulted = {f.get('source') for f in case['faults']}
+
+    def with_budget(b2, world2):
+        k = _world_key(world2, base + 'config/settings.yaml')
+        if k is None:
+            return None
+        world2[k] = {'t': bm.render_settings(b2)}
+        return dict(schedule, case=dict(case, budget=b2, world=world2))
+
+    if case.get('env_decoy'):
+        yield dict(schedule, case=dict(case, env_decoy=False))
+    # whole sources that are not the faulted one
+    for j, s_ in enumerate(b['sources']):
+        if s_['name'] in faulted or '*' in faulted or s_.get('shared') or len(b['sources']) < 2:
+            continue
+        b2 = copy.deepcopy(b)
+        del b2['sources'][j]
+        c = with_budget(b2, dict(case['world']))
+        if c:
+            yield c
+    # rows
+    for j, s_ in enumerate(b['sources']):
+        if s_.get('shared') or len(s_['rows']) < 1:
+            continue
+        k = _world_key(case['world'], base + s_['file'])
+        if k is None:
+            continue
+        n = len(s_['rows'])
+        chunk = max(1, n // 2)
+        while chunk >= 1:
+            for a in range(0, n, chunk):
+                b2 = copy.deepcopy(b)
+                rows = b2['sources'][j]['rows']
+                del rows[a:a + chunk]
+                w2 = dict(case['world'])
+                w2[k] = {'t': st.render(b2['sources'][j]['layout'], rows)}
+                yield dict(schedule, case=dict(case, budget=b2, world=w2))
+            if chunk == 1 or n > 40 and chunk <= n // 16:
+                break
+            chunk //= 2
+    # views
+    if b.get('views_model'):
+        b2 = copy.deepcopy(b)
+        b2['views_model'] = None
+        b2['views_file_setting'] = None
+        c = with_budget(b2, dict(case['world']))
+        if c:
+            yield c
+    # rules
+    if b['rules_kind'] == 'rules' and b.get('rules_model') and len(b['rules_model']['rules']) > 1:
+        k = _world_key(case['world'], base + 'config/merchants.rules')
+        if k is not None:
+            for j in range(len(b['rules_model']['rules'])):
+                b2 = copy.deepcopy(b)
+                del b2['rules_model']['rules'][j]
+                text, _ = rf.render_rules(b2['rules_model'], rf.gen_rules_layout(None, plain=True), random.Random(0))
+                b2['rules_text'] = text
+                w2 = dict(case['world'])
+                w2[k] = {'t': text}
+                yield dict(schedule, case=dict(case, budget=b2, world=w2))
+
+
 def coverage(count, sets, samples, tier):
     return {
         'evaluations': count.get('sim_processes', 0),
